@@ -71,3 +71,34 @@ Proof.
   assert (E : (cap - n <? add) = true) by (apply N.ltb_lt; exact H3). assert (E2 : (n + add <? W) = false) by (apply N.ltb_ge; exact H4).
   rewrite E, E2. split; reflexivity.
 Qed.
+
+(** ** the bodies the vector machine's operations were transcribed from are the bodies of today's source *)
+From Coq Require Import List String Bool.
+Import ListNotations.
+From Hip Require Import VecSpec.
+
+Theorem vec_operation_bodies_recognised :
+  forallb snd vec_shapes = true /\ Nat.leb 18 (List.length vec_shapes) = true /\ drain_extra_iterator_overrides = []
+  /\ truncate_lowers_len_before_drops = true /\ drain_new_always_sets_len_to_start = true.
+Proof. repeat split; vm_compute; reflexivity. Qed.
+
+(** try_insert rejects an index beyond the length FIRST (what Vec::insert panics on), a full vector second: the reason handed back is
+    the one the std specification [vspec] gives *)
+Theorem try_insert_gen_is_vspec : forall c sp v l i x, sgetv sp v = Some l ->
+  vspec (KInline c) sp (XTryInsert v i x) =
+    match try_insert_gen (N.of_nat (List.length l)) (N.of_nat c) (N.of_nat i) with
+    | InsOutOfBounds => (sp, SRejected x false)
+    | InsFull => (sp, SRejected x true)
+    | InsOk => (ssetv sp v (Some (insert_at l i x)), SUnit)
+    end \/ (c < List.length l)%nat.
+Proof.
+  intros c sp v l i x G. destruct (Nat.ltb_spec c (List.length l)) as [L|L]; [right; exact L|left].
+  unfold vspec. rewrite G. cbn [cap_of]. unfold try_insert_gen, fits. cbn [cap_of].
+  destruct (Nat.ltb_spec (List.length l) i) as [A|A].
+  - assert (E : (N.of_nat (List.length l) <? N.of_nat i)%N = true) by (apply N.ltb_lt; lia). rewrite E. reflexivity.
+  - assert (E : (N.of_nat (List.length l) <? N.of_nat i)%N = false) by (apply N.ltb_ge; lia). rewrite E.
+    destruct (Nat.leb_spec (S (List.length l)) c) as [B|B].
+    + assert (E2 : (N.of_nat (List.length l) =? N.of_nat c)%N = false) by (apply N.eqb_neq; lia). rewrite E2. reflexivity.
+    + assert (E2 : (N.of_nat (List.length l) =? N.of_nat c)%N = true) by (apply N.eqb_eq; lia). rewrite E2. reflexivity.
+Qed.
+Print Assumptions try_insert_gen_is_vspec.
